@@ -42,6 +42,18 @@ type GhostField struct {
 	Type, Name, GoType, Pkg string
 }
 
+// LockInv: an invariant over the fields guarded by a mutex; assumed after every
+// acquisition, proved at every release (rely/guarantee over atomic lock regions).
+type LockInv struct {
+	Pkg, Mutex, Recv string
+	Cl               Clause
+}
+
+type GhostSet struct {
+	Name string
+	Cl   Clause
+}
+
 type Axiom struct {
 	Name string
 	Cl   Clause
@@ -70,6 +82,7 @@ type Contract struct {
 	Guarded   []string
 	Arith     string
 	AllocLimit *Clause
+	GhostSets  []GhostSet
 	Unroll    map[int]int
 	File      string
 	Line      int
@@ -94,6 +107,9 @@ type ContractSet struct {
 	ctxPkg     string
 	GhostFields map[string]*GhostField
 	GhostVars   map[string]*GhostField
+	InitCalls   []*InitCall
+	Statics     []*StaticDecl
+	LockInvs    []*LockInv
 }
 
 type PkgCensus struct {
@@ -269,6 +285,36 @@ func (cs *ContractSet) directive(cur **Contract, body, path string, ln int, pkgP
 			cs.GuardDecls = append(cs.GuardDecls, [2]string{pkgPath, rest})
 			return nil
 		}
+	case "mapinit", "callsonly":
+		d, err := parseStaticDecl(word, rest)
+		if err != nil {
+			return fail("%v", err)
+		}
+		d.Pkg, d.Props, d.Line = pkgPath, tags, ln
+		cs.Statics = append(cs.Statics, d)
+		return nil
+	case "lockinv":
+		// lockinv Type.mu(recv): expr  — holds whenever the mutex is free
+		i := strings.Index(rest, ":")
+		j := strings.Index(rest, "(")
+		k := strings.Index(rest, ")")
+		if i < 0 || j < 0 || k < j || i < k {
+			return fail("lockinv Type.mu(recv): expr")
+		}
+		cl, err := mk(strings.TrimSpace(rest[i+1:]))
+		if err != nil {
+			return err
+		}
+		cs.LockInvs = append(cs.LockInvs, &LockInv{Pkg: pkgPath, Mutex: strings.TrimSpace(rest[:j]), Recv: strings.TrimSpace(rest[j+1 : k]), Cl: cl})
+		return nil
+	case "initcall":
+		ic, err := parseInitCall(rest)
+		if err != nil {
+			return fail("%v", err)
+		}
+		ic.Pkg, ic.Props, ic.Line = pkgPath, tags, ln
+		cs.InitCalls = append(cs.InitCalls, ic)
+		return nil
 	case "census":
 		// census[Cxx] callee in f1, f2, ...
 		i := strings.Index(rest, " in ")
@@ -306,14 +352,15 @@ func (cs *ContractSet) directive(cur **Contract, body, path string, ln int, pkgP
 		c.Ensures = append(c.Ensures, cl)
 	case "modifies":
 		c.HasMod = true
-		if rest == "*" {
-			c.ModAll = true
-			return nil
-		}
 		if rest == "" || rest == "nothing" {
 			return nil
 		}
 		for _, part := range splitTop(rest) {
+			if part == "*" {
+				// everything reachable may change (ghost variables only if also listed)
+				c.ModAll = true
+				continue
+			}
 			cl, err := mk(part)
 			if err != nil {
 				return err
@@ -355,6 +402,17 @@ func (cs *ContractSet) directive(cur **Contract, body, path string, ln int, pkgP
 	case "trusted":
 		c.Trusted = true
 		c.TrustWhy = rest
+	case "ghostset":
+		// ghostset name = expr : ghost assignment performed when the function returns
+		i := strings.Index(rest, "=")
+		if i < 0 {
+			return fail("ghostset <name> = <expr>")
+		}
+		cl, err := mk(strings.TrimSpace(rest[i+1:]))
+		if err != nil {
+			return err
+		}
+		c.GhostSets = append(c.GhostSets, GhostSet{Name: strings.TrimSpace(rest[:i]), Cl: cl})
 	case "lemma":
 		c.Lemma = true
 	case "alloc-limit":
